@@ -8,7 +8,7 @@ from .. import core, eqv, values
 ID = 'C10'
 LEVEL = 'exploration'
 RULE = ('case = (container tree over list/tuple/set/frozenset/dict with lengths 0..6, optionally reached through '
-        'pretty_call objects with one or several positional/keyword arguments or held by standard-library containers (deque, '
+        'pretty_call objects with one or several positional/keyword arguments, optionally wrapped in comment() / trailing_comment(), or held by standard-library containers (deque, '
         'OrderedDict, defaultdict, Counter, ChainMap, mappingproxy, namedtuple, SimpleNamespace; N >= 2 there), N in {1..maxlen+1, None, 10^6, '
         'default}, width, indent). Exhaustive: shapes built from lengths {0,1,2,3} nested to depth 2 over all five '
         'container kinds x every N in 1..4 plus None x 3 widths; long flat containers of 999/1000/1001/1200 elements at '
@@ -82,6 +82,14 @@ def fixed_cases():
             yield {'v': [kind, big_set[1]], 'n': n, 'width': 40, 'indent': 4, 'sort': True}
         yield {'v': ['list', [big_set, ['dict', [[['int', 3], big_set], [['int', 1], ['int', 0]], [['int', 2], ['int', 0]]]]]], 'n': n, 'width': 40, 'indent': 4, 'sort': True}
     inner = ['list', [['int', 1], ['int', 2], ['int', 3], ['int', 4]]]
+    for n in (1, 2, 4, None):
+        for w in (20, 79):
+            for kind in ('tcmt', 'cmt'):
+                # truncated containers that also carry a user comment
+                yield {'v': [kind, 'user note', inner], 'n': n, 'width': w, 'indent': 4}
+                yield {'v': ['list', [[kind, 'user note', inner], [kind, 'other note', ['dict', [[['int', i], ['int', i]] for i in range(3)]]],
+                                      [kind, 'third', ['set', [['int', 1], ['int', 2], ['int', 3]]]], [kind, 'fourth', ['tuple', [['int', 1], ['int', 2], ['int', 3]]]]]],
+                       'n': n, 'width': w, 'indent': 4}
     for n in (2, 3, None):
         yield {'v': ['std', 'deque', [['int', 10], ['int', 20], ['int', 30], ['int', 40], inner], 9], 'n': n, 'width': 40, 'indent': 4, 'std': True}
         yield {'v': ['std', 'odict', [[['int', i], inner] for i in range(4)]], 'n': n, 'width': 40, 'indent': 4, 'std': True}
@@ -118,7 +126,27 @@ def strategy(tier):
         )
     plain = st.recursive(leaf, ext, max_leaves=30).filter(lambda r: r[0] in ('list', 'tuple', 'set', 'fset', 'dict'))
     with_calls = st.recursive(leaf, ext_calls, max_leaves=20).filter(lambda r: r[0] in ('list', 'tuple', 'dict', 'call'))
-    tree = st.one_of(plain, plain, with_calls)
+    def decorate(p):
+        # comment() / trailing_comment() on containers that are list elements, dict values or the root
+        # (texts without digits; a comment neither hides nor adds a truncation notice)
+        tree, picks = p
+        state = {'n': 0}
+
+        def rec(r, allowed):
+            t = r[0]
+            if t in ('list', 'tuple'):
+                r = [t, [rec(x, True) for x in r[1]]]
+            elif t == 'dict':
+                r = [t, [[k, rec(v, True)] for k, v in r[1]]]
+            if t in ('list', 'tuple', 'dict', 'set', 'fset'):
+                state['n'] += 1
+                if allowed and state['n'] % 5 in picks:
+                    # (the frozenset printer takes no trailing comment - a documented warning: comment() there)
+                    return ['cmt' if t == 'fset' else ('tcmt', 'cmt')[state['n'] % 2], 'user note', r]
+            return r
+        return rec(tree, True)
+    commented = st.tuples(plain, st.sets(st.integers(0, 4), min_size=1, max_size=3).map(sorted)).map(decorate)
+    tree = st.one_of(plain, plain, with_calls, commented)
     # standard-library containers holding built-in containers (N >= 2: the (key, value) items of an OrderedDict are
     # 2-tuples and must stay whole)
     from .. import stdvals
@@ -169,6 +197,8 @@ def truncate(v, N, counts, level=0, trunc_levels=None, sort=False):
     sort: sort_dict_keys is on - a dict shows its first N keys in ascending order (only judged when the keys are
     pairwise comparable); sets, lists, tuples are unaffected by that option (iteration order)."""
     from .. import vtypes
+    while type(v).__name__ in ('_CommentedValue', '_TrailingCommentedValue'):
+        v = v.value          # comments are inert for truncation
     t = type(v)
     import collections as _c
     import types as _t
@@ -305,7 +335,8 @@ def oracle(case):
         return core.viol('not-tokenizable', repr(e))
     if got != sorted(counts):
         return core.viol('notice-counts-differ', 'N=%r expected notices %r got %r\n%s' % (n, sorted(counts), got, p.text[:500]))
-    if not counts and nwords:
+    has_comments = '"cmt"' in core.canonical(case.get('v')) or '"tcmt"' in core.canonical(case.get('v'))
+    if not counts and nwords and not has_comments:
         return core.viol('unexpected-comment', p.text[:400])
     labels = []
     if n is None:
